@@ -131,6 +131,15 @@ def corpus():
         dict(_arr(2, [dict(construct=True, cfg='max_body5'),
                       _call(0, 'tC', [['form_see'], ['see']], method='POST', form='f=tCf&g=tCg')],
                   start=0, switches=[]), max_body=30),
+        # the API of the shared objects used from nested applications: every application keeps its own view
+        _arr(2, [_call(0, 'tA', [['hdr_append', 'X-A', 'tAa1'], ['ext'], ['req_set', 'QUERY_STRING', 'n=tAn'], ['see'],
+                                 ['call', _call(1, 'tB', [['hdr_append', 'X-A', 'tBa'], ['ext'], ['hdr_clear'],
+                                                          ['req_set', 'HTTP_COOKIE', 'c2=tBc2'], ['see'], ['ret', 'resp_obj']])],
+                                 ['see'], ['hdr_append', 'X-A', 'tAa2'], ['hdr_copy'], ['listen'], ['see']],
+                       cookie='c=tAc')], default=True),
+        _arr(2, [_call(1, 'tA', [['see'], ['new_app', 'errors_map422', 'setup'], ['see'],
+                                 ['call', _call(0, 'tB', [], route='nope404')], ['see'],
+                                 ['call', _call(0, 'tD', [['see']], method='HEAD')], ['ret', 'gen_bytes']])]),
         # redirect() works for the default application ...
         _arr(2, [_call(0, 'tA', [['see'], ['redirect', '?to=tA']])], default=True),
         # ... and (finding C10-redirect-default-app) reads the default application's request from any other one
@@ -218,7 +227,7 @@ def _body_kw(rng, tok, app, default):
 
 
 def _end_in_body_error(script):
-    while script and script[-1][0] in ('abort', 'boom', 'gen', 'redirect', 'see'):
+    while script and script[-1][0] in ('abort', 'boom', 'gen', 'redirect', 'see', 'ret', 'bad_status'):
         script = script[:-1]
     return [a for a in script if a[0] != 'form_see'] + [['body_read']]
 
@@ -266,19 +275,27 @@ def _gen_script(rng, tok, napps, depth, counter, busy=(), default=False):
         elif r < 0.86:
             script.append(['copy'])
             script.append(['see'])
-        elif r < 0.93:
-            script.append(['new_app'] + ([rng.choice(CFG_KINDS)] if rng.random() < 0.6 else []))
+        elif r < 0.91:
+            na = ['new_app'] + ([rng.choice(CFG_KINDS)] if rng.random() < 0.6 else [])
+            if len(na) == 2 and rng.random() < 0.4:
+                na.append('setup')                # configured through Ombott.setup() after construction
+            script.append(na)
             script.append(['see'])
+        elif r < 0.96:
+            # the mapping interfaces of response.headers / request, listeners, ext attributes
+            script.extend(sched.gen_api_actions(rng, tok, True))
         else:
             script.append(['form_see'])
     r = rng.random()
-    if r < 0.08:
+    if r < 0.12:
+        script.append(sched.gen_terminal(rng, tok))
+    elif r < 0.20:
         script.append(['abort', rng.choice([400, 403, 404, 500])])
-    elif r < 0.13:
+    elif r < 0.25:
         script.append(['boom'])
-    elif r < 0.22:
+    elif r < 0.33:
         script.append(['gen', rng.randrange(1, 4)])
-    elif r < 0.27:
+    elif r < 0.38:
         script.append(['redirect', '?to=' + tok])
     else:
         script.append(['see'])
@@ -289,6 +306,7 @@ def _gen_arr(rng):
     napps = rng.choice([2, 2, 3])
     nthreads = rng.choice([1, 1, 2, 2, 3])
     default = rng.random() < 0.5
+    cfg = sorted(c for c in ('debug', 'nocatch', 'domain') if rng.random() < 0.12)
     calls = []
     for i in range(nthreads):
         if nthreads > 1 and rng.random() < 0.15:
@@ -309,12 +327,18 @@ def _gen_arr(rng):
         if rng.random() < 0.2:
             kw = _body_kw(rng, tok, j, default)
             script = _end_in_body_error(script)
+        elif rng.random() < 0.12 and not kw.get('readonly'):
+            # requests the framework answers by itself (404 / 405 / 404-hook / undecodable path), HEAD, domain_map
+            extra = sched.gen_call_kind(rng, cfg, default and j == 0)
+            kw.update(extra)
+            if extra.get('domain'):
+                script = [a for a in script if a[0] not in ('call_copy', 'redirect')]
         calls.append(_call(j, tok, script, **kw))
     switches = []
     if nthreads > 1:
         for _ in range(rng.randrange(0, 4)):
             switches.append([rng.randrange(1, 1000), rng.randrange(nthreads)])
-    return dict(_arr(napps, calls, default=default, start=rng.randrange(nthreads), switches=switches), max_body=30)
+    return dict(_arr(napps, calls, default=default, start=rng.randrange(nthreads), switches=switches), max_body=30, cfg=cfg)
 
 
 def gen(rng, n):
@@ -486,7 +510,8 @@ def classify(case, obs):
             if a[0] == 'call':
                 kinds.add('nested')
                 walk(a[1], depth + 1)
-            elif a[0] in ('copy', 'new_app', 'abort', 'boom', 'gen', 'call_copy', 'redirect', 'body_read'):
+            elif a[0] in ('copy', 'new_app', 'abort', 'boom', 'gen', 'call_copy', 'redirect', 'body_read', 'ret', 'ext',
+                          'listen', 'req_set') or a[0].startswith('hdr_'):
                 kinds.add(a[0])
         if c.get('readonly'):
             kinds.add('readonly')
